@@ -358,6 +358,21 @@ let judge op args got =
     | "psqrt_rem" -> let (r, e) = sqrt_rem_spec (a 1) in
         let fid = " " ^ same (res_text (fun (r, e) -> hx r ^ " " ^ hx e) (prim_sqrt_rem_asis fuel_root (zi (ty_bits (s 0))) (a 1))) got in
         expect ~extra:(Printf.sprintf "cls=psqrtrem-%s" (s 0) ^ fid) ("ok " ^ hx r ^ " " ^ hx e) got
+    | "psweep64" | "psweep32" ->
+        (* round 5: the extracted class certificates (GrlPrimRootCert.v; certificate true => the model answers for every n of
+           the class: GrlPrimRootTotal.v for all u32 classes, GrlPrimRootTotal64.v per u64 class) against the real code -
+           u64: at the critical points of the same classes, u32: at every value of the classes *)
+        let wide = op = "psweep64" in
+        let x0 = a 1 and cnt = Zar.to_int (a 2) in
+        let cube = s 0 = "cbrt" in
+        let bad = ref 0 in
+        for i = 0 to cnt - 1 do
+          let x = Zar.add x0 (zi i) in
+          if Zar.lt x (Zar.shift_left Zar.one (if wide then 32 else 16)) then
+            if not (if wide then (if cube then cb64_cert x else sq64_cert x) else (if cube then cb32_class x else sq32_class x)) then incr bad
+        done;
+        let fid = if (!bad = 0) = (got = ["ok"; "0"]) then " asis=same" else " asis=diff" in
+        expect ~extra:(Printf.sprintf "cls=%s-%s certbad=%d" op (s 0) !bad ^ fid) "ok 0" got
     | "isqrt" -> if Zar.sign (a 0) < 0 then expect ~nt:false "panic RootNegative" got else expect ("ok " ^ hx (Zar.sqrt (a 0))) got
     | "ucbrt" -> judge_root ~signed:false (zi 3) (a 0) got
     | "pcbrt" ->
